@@ -52,8 +52,23 @@ pub fn quiet_panics() {
 
 pub mod dic_ops;
 pub mod kana_ops;
+pub mod trie_ops;
+
+/// Mutable state of the implementation driver.
+pub struct State {
+    pub trie: trie_ops::TrieState,
+}
+
+impl State {
+    pub fn new() -> Self {
+        State { trie: trie_ops::TrieState::new() }
+    }
+}
 
 /// Dispatch one request to the module that knows the operation.
-pub fn handle(op: &str, arg: &str) -> Option<String> {
+pub fn handle(st: &mut State, op: &str, arg: &str) -> Option<String> {
+    if let Some(r) = trie_ops::handle(&mut st.trie, op, arg) {
+        return Some(r);
+    }
     dic_ops::handle(op, arg).or_else(|| kana_ops::handle(op, arg))
 }
